@@ -296,6 +296,11 @@ func (c *Variant) SetAsObject(value any) {
 		v, _ := c.value.(*Variant)
 		c.typ = v.typ
 		c.value = v.value
+		if a1, ok := v.value.([]*Variant); ok {
+			a2 := make([]*Variant, len(a1))
+			copy(a2, a1)
+			c.value = a2
+		}
 	default:
 		c.typ = Object
 	}
@@ -430,11 +435,38 @@ func (c *Variant) Equals(obj *Variant) bool {
 	if value1 == nil || value2 == nil {
 		return value1 == value2
 	}
+	if c.typ == Array && obj.typ == Array {
+		array1 := c.AsArray()
+		array2 := obj.AsArray()
+		if len(array1) != len(array2) {
+			return false
+		}
+		for i := range array1 {
+			if array1[i] == nil || array2[i] == nil {
+				if array1[i] != array2[i] {
+					return false
+				}
+			} else if !array1[i].Equals(array2[i]) {
+				return false
+			}
+		}
+		return true
+	}
 	return c.typ == obj.typ && value1 == value2
 }
 
 // Clone the variant value
 //	Returns: The cloned value of this variant
 func (c *Variant) Clone() *Variant {
+	if c.typ == Array {
+		array := c.AsArray()
+		elements := make([]*Variant, len(array))
+		for i, element := range array {
+			if element != nil {
+				elements[i] = element.Clone()
+			}
+		}
+		return VariantFromArray(elements)
+	}
 	return NewVariant(c)
 }
